@@ -672,6 +672,35 @@ impl Real {
                 Outcome::Ok(Ret::Q(qv))
             }
             Op::Checkpoint { .. } | Op::Restart { .. } | Op::Reparse { .. } => Outcome::Ok(Ret::Unit),
+            Op::DtMap { doc, which, name } => {
+                use xml_dom::DocumentType;
+                if *doc >= self.docs.len() {
+                    return Outcome::Skipped;
+                }
+                let dt = match self.docs[*doc].dom.doc_type() {
+                    Some(dt) => dt,
+                    None => return Outcome::Skipped,
+                };
+                let res: Result<DR<()>, String> = guarded(|| match which {
+                    0 => {
+                        let m = dt.entities();
+                        match m.get_named_item(name).or_else(|| m.item(0)) {
+                            Some(e) => m.set_named_item(e).map(|_| ()),
+                            None => m.remove_named_item(name).map(|_| ()),
+                        }
+                    }
+                    1 => dt.entities().remove_named_item(name).map(|_| ()),
+                    2 => {
+                        let m = dt.notations();
+                        match m.get_named_item(name).or_else(|| m.item(0)) {
+                            Some(e) => m.set_named_item(e).map(|_| ()),
+                            None => m.remove_named_item(name).map(|_| ()),
+                        }
+                    }
+                    _ => dt.notations().remove_named_item(name).map(|_| ()),
+                });
+                self.finish_unit(res)
+            }
         }
     }
 
